@@ -27,6 +27,24 @@ pub struct T {
     pub op: Option<(Op, Obj)>,
     pub blocked: bool,
     pub prio: i64,
+    /// OS thread id (for /proc/self/task/<tid>/syscall), 0 if unknown
+    pub tid: i32,
+}
+
+fn gettid() -> i32 {
+    unsafe { libc::syscall(libc::SYS_gettid) as i32 }
+}
+
+/// True if the thread is inside an UNTIMED futex wait (mutex / condvar / channel park without timeout).
+fn in_untimed_futex_wait(tid: i32) -> bool {
+    let Ok(s) = std::fs::read_to_string(format!("/proc/self/task/{tid}/syscall")) else { return false };
+    let f: Vec<&str> = s.split_whitespace().collect();
+    if f.len() < 5 || f[0] != "202" {
+        return false;
+    }
+    let hex = |x: &str| u64::from_str_radix(x.trim_start_matches("0x"), 16).unwrap_or(u64::MAX);
+    let op = hex(f[2]) & 0x7f;
+    (op == 0 || op == 9) && hex(f[4]) == 0
 }
 
 #[derive(Clone, Copy, Debug, PartialEq, Eq)]
@@ -70,6 +88,10 @@ pub struct State {
     pub hasher_lagging_at_join: bool,
     pub abort: Option<Abort>,
     pub on_abort: Option<Box<dyn Fn(&State, &Abort) + Send>>,
+    /// set by the stall monitor: the schedule is no longer owned, every parked thread polls its own
+    /// enabling condition (used to tell a real dead-lock from a stall the serialisation itself caused)
+    pub free_run: bool,
+    pub monitor_stop: bool,
 }
 
 pub struct Sched {
@@ -181,6 +203,8 @@ impl Sched {
             hasher_lagging_at_join: false,
             abort: None,
             on_abort: None,
+            free_run: false,
+            monitor_stop: false,
         };
         Arc::new(Self { st: Mutex::new(st), cv: Condvar::new() })
     }
@@ -191,7 +215,7 @@ impl Sched {
         let idx = st.next_idx;
         st.next_idx += 1;
         let prio = (st.rnd() % 1000) as i64 + 1000;
-        st.threads.insert(me, T { idx: Some(idx), role: "main".into(), state: TState::Running, op: None, blocked: false, prio });
+        st.threads.insert(me, T { idx: Some(idx), role: "main".into(), state: TState::Running, op: None, blocked: false, prio, tid: gettid() });
         st.current = Some(me);
         st.main = Some(me);
     }
@@ -217,7 +241,7 @@ impl Sched {
         {
             if !st.threads.contains_key(&me) {
                 let prio = (st.rnd() % 1000) as i64 + 1000;
-                st.threads.insert(me, T { idx: None, role: "?".into(), state: TState::Parked, op: None, blocked: false, prio });
+                st.threads.insert(me, T { idx: None, role: "?".into(), state: TState::Parked, op: None, blocked: false, prio, tid: gettid() });
             }
             let t = st.threads.get_mut(&me).unwrap();
             t.state = TState::Parked;
@@ -254,8 +278,15 @@ impl Sched {
         }
         self.cv.notify_all();
         loop {
-            while st.current != Some(me) {
+            while st.current != Some(me) && !st.free_run {
                 st = self.cv.wait(st).unwrap();
+            }
+            if st.free_run && !ready(&st) {
+                // schedule no longer owned: poll the enabling condition
+                st.threads.get_mut(&me).unwrap().blocked = true;
+                let (g, _) = self.cv.wait_timeout(st, Duration::from_millis(20)).unwrap();
+                st = g;
+                continue;
             }
             if ready(&st) {
                 let role;
@@ -289,10 +320,91 @@ impl Sched {
             }
             st.current = st.choose();
             if st.current.is_none() {
+                // every thread at a hook point is blocked; if some thread is still RUNNING (it may be
+                // stuck outside the hook points) the stall monitor decides, otherwise this is a dead-lock
+                if st.threads.values().any(|t| t.state == TState::Running) {
+                    self.cv.notify_all();
+                    let (g, _) = self.cv.wait_timeout(st, Duration::from_millis(50)).unwrap();
+                    st = g;
+                    continue;
+                }
                 let alive = st.alive();
                 self.abort(&mut st, Abort::Deadlock(format!("all live threads blocked: {alive:?}")));
             }
             self.cv.notify_all();
+        }
+    }
+
+    /// Stall monitor (own thread). The scheduler assumes that code between two hook points never
+    /// blocks. If the one running thread sits in an UNTIMED futex wait (a blocking primitive without a
+    /// hook) while every other thread is parked by the scheduler, nobody can wake it under the owned
+    /// schedule. The monitor then releases the schedule (free-run): if the system makes progress again
+    /// the stall was caused by the serialisation (inconclusive); if every live thread stays blocked
+    /// (parked with a false enabling condition, or in an untimed futex wait) it is a real dead-lock.
+    fn monitor(self: Arc<Self>) {
+        let mut last: (Option<ThreadId>, usize) = (None, 0);
+        let mut count = 0;
+        let mut free_since: Option<(usize, usize)> = None; // (steps at release, samples since)
+        loop {
+            std::thread::sleep(Duration::from_millis(150));
+            let (running, steps, others_parked, free) = {
+                let st = self.st.lock().unwrap();
+                if st.monitor_stop || st.abort.is_some() {
+                    return;
+                }
+                let running: Vec<(ThreadId, i32)> = st.threads.iter().filter(|(_, t)| t.state == TState::Running).map(|(id, t)| (*id, t.tid)).collect();
+                let others_parked = st.threads.values().filter(|t| t.state == TState::Parked).count();
+                (running, st.steps, others_parked, st.free_run)
+            };
+            if !free {
+                if running.len() == 1 && others_parked >= 1 && running[0].1 != 0 && in_untimed_futex_wait(running[0].1) {
+                    if last == (Some(running[0].0), steps) {
+                        count += 1;
+                    } else {
+                        last = (Some(running[0].0), steps);
+                        count = 1;
+                    }
+                } else {
+                    count = 0;
+                }
+                if count >= 4 {
+                    let mut st = self.st.lock().unwrap();
+                    if st.steps == steps {
+                        st.free_run = true;
+                        if st.log.len() < 4000 {
+                            st.log.push("MONITOR: running thread is in an untimed futex wait outside the hook points; schedule released".into());
+                        }
+                        free_since = Some((steps, 0));
+                        self.cv.notify_all();
+                    }
+                    count = 0;
+                }
+                continue;
+            }
+            // free-run: does anything move?
+            let Some((steps0, n)) = free_since else { continue };
+            let all_stuck = {
+                let st = self.st.lock().unwrap();
+                st.threads.values().filter(|t| t.state != TState::Ended).all(|t| match t.state {
+                    TState::Parked => t.blocked,
+                    _ => t.tid != 0 && in_untimed_futex_wait(t.tid),
+                })
+            };
+            if steps != steps0 || !all_stuck {
+                if steps != steps0 {
+                    // progress after the release: the stall was an artefact of the serialisation
+                    let mut st = self.st.lock().unwrap();
+                    self.abort(&mut st, Abort::SpawnTimeout("a thread blocked on a primitive without a hook point while the scheduler held the others; progress resumed after the schedule was released (scheduler artefact, not judged)".into()));
+                }
+                free_since = Some((steps0, 0));
+                continue;
+            }
+            free_since = Some((steps0, n + 1));
+            if n + 1 >= 6 {
+                let mut st = self.st.lock().unwrap();
+                let alive = st.alive();
+                self.abort(&mut st, Abort::Deadlock(format!("with the schedule released, every live thread stays blocked (parked with a false enabling condition or in an untimed futex wait outside the hook points): {alive:?}")));
+            }
         }
     }
 
@@ -366,6 +478,13 @@ impl Hook for Sched {
 
 pub fn install(s: &Arc<Sched>) {
     verif_hook::set_hook(Some(s.clone() as Arc<dyn Hook>));
+    let m = s.clone();
+    std::thread::spawn(move || m.monitor());
+}
+
+/// Stops the stall monitor of `s` (call when the scheduled run is over).
+pub fn stop_monitor(s: &Arc<Sched>) {
+    s.st.lock().unwrap().monitor_stop = true;
 }
 
 pub fn uninstall() {
